@@ -122,6 +122,11 @@ def core_configs():
       Cfg('random', 0, [2, 5, 3], None, 3, 5, 12, 0, 'categorical-only,count>batch'),
       Cfg('random', 3, [], 'pow2', 4, 2, 12, 0, 'padded-continuous'),
       Cfg('random', 1, [2, 3, 4], 'pow2', 3, 4, 12, 2, 'padded-categorical,priors'),
+      # two optimisers in ONE process whose categorical blocks have the same shape (2 features, largest arity 4) but
+      # different arities, the later one with FEWER categories: anything remembered per shape instead of per search
+      # space (a memoised sampler table, a jit cache keyed too coarsely) shows as an index outside the second space
+      Cfg('eagle', 1, [4, 4], None, 5, 4, p(1, 2, 5) + 10, 0, 'same-shape-pair:first'),
+      Cfg('eagle', 1, [2, 4], None, 5, 4, p(1, 2, 5) + 10, 0, 'same-shape-pair:second-has-fewer-categories'),
   ]
 
 
